@@ -487,7 +487,7 @@ fn c12_unsolicited_bad_header_last() {
 
 // @harness c12_unsolicited_one_class
 // @props C12
-// @tier quick
+// @tier thorough
 // @timeout 1800
 // @mem 4
 // @units OutstationSession::handle_enable_or_disable_unsolicited, HeaderCollection::{parse,iter}
@@ -499,7 +499,7 @@ fn c12_unsolicited_one_class() {
 }
 // @harness c12_unsolicited_one_bad_header
 // @props C12
-// @tier quick
+// @tier thorough
 // @timeout 1800
 // @mem 4
 // @units OutstationSession::handle_enable_or_disable_unsolicited
@@ -545,7 +545,7 @@ fn c12_object_parse_error_to_iin2() {
 
 // @harness c12_objects_where_forbidden
 // @props C12
-// @tier quick
+// @tier thorough
 // @timeout 900
 // @mem 4
 // @units OutstationSession::get_iin2, FunctionCode::get_function_info, HeaderCollection::{parse,is_empty}
